@@ -79,7 +79,50 @@ def _t_rename(text):
     return ast.unparse(t) + "\n"
 
 
-TRANSFORMS = {"unparse": _t_unparse, "rename-locals": _t_rename}
+class _Commute(ast.NodeTransformer):
+    """a + b -> b + a and a * b -> b * a for numeric-looking operands (never for str / list operands), a == b -> b == a"""
+
+    def visit_BinOp(self, node):
+        self.generic_visit(node)
+        def listy(n):
+            return isinstance(n, (ast.List, ast.ListComp, ast.JoinedStr)) or (isinstance(n, ast.Constant) and isinstance(n.value, str)) \
+                or (isinstance(n, ast.BinOp) and (listy(n.left) or listy(n.right))) or (isinstance(n, ast.Call) and isinstance(n.func, ast.Attribute) and n.func.attr in ("format", "join", "tolist"))
+        if isinstance(node.op, (ast.Add, ast.Mult)) and not listy(node.left) and not listy(node.right):
+            node.left, node.right = node.right, node.left
+        return node
+
+    def visit_Compare(self, node):
+        self.generic_visit(node)
+        if len(node.ops) == 1 and isinstance(node.ops[0], (ast.Eq, ast.NotEq)):
+            node.left, node.comparators = node.comparators[0], [node.left]
+        return node
+
+
+def _t_commute(text):
+    t = ast.parse(text)
+    _Commute().visit(t)
+    ast.fix_missing_locations(t)
+    return ast.unparse(t) + "\n"
+
+
+class _Append(ast.NodeTransformer):
+    """x += [e]  ->  x.append(e)"""
+
+    def visit_AugAssign(self, node):
+        if isinstance(node.op, ast.Add) and isinstance(node.target, ast.Name) and isinstance(node.value, ast.List) and len(node.value.elts) == 1:
+            return ast.copy_location(ast.Expr(value=ast.Call(func=ast.Attribute(value=ast.Name(id=node.target.id, ctx=ast.Load()), attr="append", ctx=ast.Load()),
+                                                               args=[node.value.elts[0]], keywords=[])), node)
+        return node
+
+
+def _t_append(text):
+    t = ast.parse(text)
+    _Append().visit(t)
+    ast.fix_missing_locations(t)
+    return ast.unparse(t) + "\n"
+
+
+TRANSFORMS = {"unparse": _t_unparse, "rename-locals": _t_rename, "commute": _t_commute, "append": _t_append}
 
 
 def _run_one(job):
